@@ -376,7 +376,21 @@ func cmdCheck(args []string) int {
 				total--
 				continue
 			}
-			viol(o.Name, violationBody(prop, r, or), or.Status == "sat")
+			body := violationBody(prop, r, or)
+			reproduced := false
+			if or.Status == "sat" && o.Class == "ensures" && !baseline {
+				ro := p.tryReplay(r.x.fn, o, or.Model, predictedNil(or.Model, o), replayDir, sanitize(o.Name))
+				switch {
+				case ro.reproduced:
+					reproduced = true
+					body += "\nReplayed on the real code (go test -overlay, nothing written to /repo): the run below reproduces the counterexample.\ntest source: " + ro.file + "\n" + ro.output + "\n"
+				case ro.attempted:
+					body += "\nA replay test was generated from the model (" + ro.file + ") but did not reproduce it: " + ro.why + "\n" + ro.output + "\n"
+				default:
+					body += "\nNo replay test could be generated from the model: " + ro.why + "\n"
+				}
+			}
+			viol(o.Name, body, reproduced)
 			notDischarged[r.key] = append(notDischarged[r.key], o.Name)
 			samples = append(samples, sample{o.Name, o.Class, o.Text, o.Pos, or.Solver, round3(or.Sec), "FAILED:" + or.Status})
 		}
@@ -641,4 +655,23 @@ func runReplayTests(names []string) (map[string]bool, string) {
 		s = s[len(s)-3000:]
 	}
 	return failed, s
+}
+
+
+// predictedNil reads the value of the obligation's RetNil term from the solver output (get-value after the model).
+func predictedNil(out string, o *Obligation) *bool {
+	if o.RetNil == nil {
+		return nil
+	}
+	t := strings.TrimSpace(out)
+	// the get-value answer is the last s-expression of the output: ((<term> true)) or ((<term> false))
+	switch {
+	case strings.HasSuffix(t, " true))") || strings.HasSuffix(t, "\ntrue))"):
+		v := true
+		return &v
+	case strings.HasSuffix(t, " false))") || strings.HasSuffix(t, "\nfalse))"):
+		v := false
+		return &v
+	}
+	return nil
 }
